@@ -75,3 +75,13 @@ for _p, _fn, _lvl in (('C12', 'run_c12', 'other'), ('C13', 'run_c13', 'other'), 
 for _p, _fn, _lvl in (('C02', 'run_c02', 'other'), ('C07', 'run_c07', 'other'), ('C08', 'run_c08', 'other'), ('C09', 'run_c09', 'other'), ('C10', 'run_c10', 'other'),
                       ('C16', 'run_c16', 'other'), ('C17', 'run_c17', 'exploration'), ('C18', 'run_c18', 'other')):
     PROPS[_p] = dict(level=_lvl, e1=[], e2=('rtc.pipe_props', _fn), assumptions=COMMON, explanation='(being extended) bounded run on the real code through real files')
+
+PROPS['C20'] = dict(
+    level='proof',
+    e1=[SRC + 'from_ascii'],
+    e2=('rtc.io_props', 'run_c20'),
+    assumptions=COMMON + ['tokens are well-formed numbers (numpy raises ValueError otherwise, which is also a rejection); str.split() yields L tokens',
+                          'text formatting (to_ascii) and dict/pickle round trips are decided by the bounded run only'],
+    explanation='E1: from_ascii accepts iff L = 3(n+1) with flags in {0,1,2,3,4,9}, EOFError iff L < 3, ValueError otherwise (both directions), and the column association of '
+                'name, coordinates, flags and (flux, error) pairs -- for every column count. The setters\\' validation code is executed as part of the caller (inlined). '
+                'E2: exhaustive column counts for n <= 5/12, bad flags, formatted round trips.')
